@@ -78,6 +78,10 @@ class S:
     def row_matrix(self, name, n, c):
         a = N.fresh_row_matrix(name, n, c)
         self.ctx.assume(N.row_matrix_wf(a))
+        if not getattr(self.ctx, "_row_axioms", False):
+            for ax in N.row_theory_axioms():
+                self.ctx.assume(ax)
+            self.ctx._row_axioms = True
         return a
 
     def assume(self, f, trusted=None):
@@ -142,7 +146,9 @@ class Contract:
     def result(self, S, a):
         """Modular call: havoc the result, then assume the callee's postcondition."""
         ret = self.fresh_result(S, a)
-        for label, f in self.ensures(S, a, ret):
+        S.ctx.log_ghost("call:" + self.qual.split(".")[-1], ret)
+        for item in self.ensures(S, a, ret):
+            label, f = item[0], item[1]
             if f is False:
                 raise PathAbort(f"contract {self.qual}: clause {label} is false for the fresh result")
             S.ctx.assume(f)
